@@ -128,6 +128,11 @@ def _run_variant(args):
             ok = neutral.apply(edits, tmp, prop)
             if not ok:
                 return (kind, vid, "n/a", "")
+        elif kind == "patch":
+            import subprocess
+            r = subprocess.run(["git", "apply", edits], cwd=tmp, stdout=subprocess.PIPE, stderr=subprocess.STDOUT)
+            if r.returncode:
+                return (kind, vid, "n/a", "")
         else:
             for (module, qual, old, new) in edits:
                 if not apply_edit(tmp, module, qual, old, new):
@@ -170,6 +175,10 @@ def variants_for(prop: str):
             out.append(("neutral", m["id"], prop, m["edits"], [], None))
     for t in neutral.transforms_for(prop):
         out.append(("transform", t, prop, t, [], None))
+    # behaviour-preserving clean-up patches delivered by independent agents (DESIGN 9.1): every check stays silent on every one
+    import glob
+    for pf in sorted(glob.glob(os.path.join(HERE, "neutral_patches", "*.diff"))):
+        out.append(("patch", "patch:" + os.path.basename(pf)[:-5], prop, pf, [], None))
     return out
 
 
